@@ -220,7 +220,9 @@ func ParseTemplate(str string) ([]string, []string, *ParsingError) {
 			vars = append(vars, var_)
 
 		default:
-			currentStr += string(b)
+			// b is a byte of the UTF-8 input: append it as is (string(b) would
+			// re-encode a non-ASCII byte as a code point)
+			currentStr += string([]byte{b})
 		}
 	}
 
